@@ -202,4 +202,11 @@ theorem digest_heartbeats_reach (d : Digest) (now : Nat) (hnd : (d.map (·.1)).N
       · rw [Node.cfg_reportHeartbeat]; exact hne
       · rw [blocked_reportHeartbeat_ne n a.1 p.1 a.2.heartbeat p.2.heartbeat now hpa]; exact hnb
 
+/-- `update_self_heartbeat` leaves every other member's copy alone -/
+theorem nodeState_updateSelfHeartbeat_ne (n : Node) (i : Id) (h : i ≠ n.cfg.selfId) :
+    n.updateSelfHeartbeat.cs.nodeState i = n.cs.nodeState i := by
+  unfold updateSelfHeartbeat
+  simp only
+  rw [nodeState_setNode_ne' _ _ _ _ h, nodeState_initIfAbsent_ne _ _ _ h]
+
 end Chitchat
